@@ -55,6 +55,14 @@ func Sigmoid(X tensor.Tensor) (tensor.Tensor, error) {
 
 // ReLU performs the ReLU operation on a tensor.
 func ReLU(X tensor.Tensor) (tensor.Tensor, error) {
+	// For floats the result is computed per element: X * (X > 0) would turn -Inf into NaN.
+	switch X.Dtype() {
+	case tensor.Float32:
+		return X.Apply(relu[float32])
+	case tensor.Float64:
+		return X.Apply(relu[float64])
+	}
+
 	typedZero, err := GetValueAsTensorType(0.0, X.Dtype())
 	if err != nil {
 		return nil, err
@@ -66,4 +74,13 @@ func ReLU(X tensor.Tensor) (tensor.Tensor, error) {
 	}
 
 	return tensor.Mul(X, comparison)
+}
+
+// relu returns 0 for negative values (including -Inf) and x otherwise (NaN stays NaN).
+func relu[T FloatType](x T) T {
+	if x < 0 {
+		return 0
+	}
+
+	return x
 }
